@@ -137,6 +137,7 @@ def register(reg):
         # minimum: all ones when every entry is missing, else the smallest entry that is present
         'implies(%s, %s == pow2(nbits_min_value) - 1)' % (ALLMISS, F_MIN),
         'implies(not %s, forall(j, 0, %s, implies(not is_none(%s), %s <= ival(%s))))' % (ALLMISS, N, colval('j'), F_MIN, colval('j')),
+        'implies(%s and not %s, %s == ival(%s))' % (AGREE, ALLMISS, F_MIN, colval('0')),
         # differences reconstruct the raw values exactly; all ones (and only that) marks a missing entry
         'implies(%s != 0, forall(j, 0, %s, ite(is_none(%s), %s == pow2(%s) - 1, %s + %s == ival(%s) and %s != pow2(%s) - 1)))'
         % (F_W, N, colval('j'), f_inc('j'), F_W, F_MIN, f_inc('j'), colval('j'), f_inc('j'), F_W)]
@@ -182,6 +183,7 @@ def register(reg):
         'wlen(bit_writer) == %s + %s * %s' % (P1, N, F_W),
         'implies(%s, %s == pow2(nbits_min_value) - 1)' % (ALLMISS, F_MIN),
         'implies(not %s, forall(j, 0, %s, implies(not is_none(%s), %s <= %s)))' % (ALLMISS, N, colval('j'), F_MIN, raw('j')),
+        'implies(%s and not %s, %s == %s)' % (AGREE, ALLMISS, F_MIN, raw('0')),
         'implies(%s != 0, forall(j, 0, %s, ite(is_none(%s), %s == pow2(%s) - 1, %s + %s == %s and %s != pow2(%s) - 1)))'
         % (F_W, N, colval('j'), f_inc('j'), F_W, F_MIN, f_inc('j'), raw('j'), f_inc('j'), F_W)]
 
@@ -215,3 +217,29 @@ def register(reg):
                  ensures=ncol_ensures, raises={'ValueError': None}, serves=['C02', 'C03', 'C05'],
                  note='compressed numeric column: scaled raws, minimum, 6-bit width, differences; all ones marks exactly the missing entries; '
                       'width 0 exactly when all subsets agree'))
+
+    # ------------------------------------------------------------------------------------------------------------
+    DALL, VALL, LALL = 'state.decoded_descriptors_all_subsets', 'state.decoded_values_all_subsets', 'state.bitmap_links_all_subsets'
+    MSG_C = 'oval(bufr_message._is_compressed.value)'
+    MSG_N = 'ival(bufr_message._n_subsets.value)'
+    WALK_MOD = ['state.*', 'elems_of(%s)' % DALL, 'elems_of(%s)' % VALL, 'elems_of(%s)' % LALL]
+    WALK_ERR = {'PyBufrKitError': None, 'AssertionError': None, 'NotImplementedError': None, 'ValueError': None, 'StopIteration': None,
+                'IndexError': None, 'TypeError': None, 'KeyError': None, 'AttributeError': None, 'IOError': None, 'OSError': None}
+    add(Contract(M + 'Encoder.process_template_data',
+                 {'self': ENC, 'bufr_message': Ref('BufrMessage'), 'bit_writer': W, 'section_parameter': Ref('SectionParameter')},
+                 requires=['bufr_message != None', 'section_parameter != None', 'bufr_message._is_compressed != None', 'bufr_message._n_subsets != None',
+                           'is_bool(bufr_message._is_compressed.value)', 'is_int(bufr_message._n_subsets.value)', '%s >= 1' % MSG_N,
+                           'is_ref(section_parameter.value)', 'refof(section_parameter.value) > 0',
+                           'len(aslist_vv(section_parameter.value)) == %s' % MSG_N],
+                 modifies=['bufr_message.table_group_key', 'section_parameter.value', 'elems_of(aslist_vv(section_parameter.value))'],
+                 loops={0: Loop(invariants=['state != None', 'state is entry(state)', 'gh(state, "walks") == entry(gh(state, "walks")) + _i0',
+                                            'not state.is_compressed', 'state.n_subsets == %s' % MSG_N,
+                                            'len(%s) == %s' % (DALL, MSG_N), 'len(%s) == %s' % (VALL, MSG_N), 'len(%s) == %s' % (LALL, MSG_N),
+                                            '%s is entry(%s)' % (DALL, DALL), '%s is entry(%s)' % (VALL, VALL), '%s is entry(%s)' % (LALL, LALL)],
+                                modifies=WALK_MOD)},
+                 ensures=['is_ref(section_parameter.value)', 'asref(refof(section_parameter.value), "TemplateData").is_compressed == %s' % MSG_C,
+                          # the value lists handed in are the ones the template data carries: used as they are
+                          'asref(refof(section_parameter.value), "TemplateData").decoded_values_all_subsets is old(aslist_vv(section_parameter.value))'],
+                 raises=WALK_ERR, serves=['C02', 'C06'],
+                 note='encoder driver: state built from the message\'s flag / count and the given value lists; per subset a context switch, '
+                      'the value cursor at 0, and one walk'))
